@@ -328,8 +328,26 @@ def corpus() -> list[str]:
     return out
 
 
+def during_scenarios() -> list[str]:
+    """The fault hits while a basic application's handler is still running in the connection's reader thread (the
+    handler then raises, or answers): judged by the direct oracle only (the model is sequential)."""
+    out = []
+    cer1 = nodegen.cer("peer1.x", "4", 601, 602)
+    for fault in ("eof_1", "rerr_1_hard", "rerr_1_soft+eof_1", "wr_1_hard", "wr_1_soft,hard+tick"):
+        for outcome in ("raise", "raise0", "answer"):
+            cfg = config("b", 0).replace("NODE ", f"NODE during={fault};", 1)
+            evs = ["start fail", "acc", f"rx 1 {cer1}", f"outcome 0 {outcome}", "rx 1 " + nodegen.ccr(603, 604), "tick"]
+            if outcome == "answer":
+                evs.append("ans 0 0 2001")
+            # afterwards another peer connects and is served (no probe comparison here: the fresh-node run would replay the fault)
+            evs += ["outcome 0 answer", "acc", "rx 2 " + nodegen.cer("peer3.x", "4", 700, 701), "rx 2 " + nodegen.ccr(710, 711, "peer3.x"),
+                    "ans 0 1 2001", "rx 2 " + nodegen.dwr(720, 721, "peer3.x")]
+            out.append(cfg + " | " + " | ".join(evs))
+    return out
+
+
 def scenarios(rng: random.Random, tier: str) -> list[str]:
-    out = corpus()
+    out = corpus() + during_scenarios()
     # systematic: every first episode x application kind x thread limit 0..3 x 1..3 faults
     reps = 2 if tier == "quick" else 30
     for kind in ("t", "b"):
